@@ -582,6 +582,8 @@ void f_unique_mapping (void) {
     {
       push_svalue (v->item + size);
       sv = call_efun_callback (&ftc, 1);
+      if (!sv)
+        sv = &const0;		/* no such function: the element is filed under 0, like a callback returning 0 */
       i = (oi = (unsigned short)svalue_to_int (sv)) & mask;
       if ((uptr = table[i]))
         {
